@@ -289,3 +289,51 @@ class Audit:
             for x in self.extra:
                 if x == worst:
                     raise RuntimeError("clash")
+
+
+def _opt_or(x: int | None, d: int) -> int:
+    """(hand-mapped: SelftestSupport.optOr) a helper with an optional parameter"""
+    return d if x is None else x
+
+
+def pick_none(x: int | None, y: int) -> int:
+    """translated twice: for `x is None` and for an int x"""
+    if x is None:
+        return y * 2 + 1
+    return x * 10 + y
+
+
+def none_selects(y: int) -> int:
+    """a literal None argument: the specialisation translated for `x is None`; for a run-time optional parameter, `none`"""
+    return pick_none(None, y) * 1000 + pick_none(4, y) * 10 + opt_add(None, y) + opt_add(y, 2)
+
+
+def static_none_local(a: int) -> int:
+    """`w = None` on one path, an int on the other (paths are never joined): passing w on selects / wraps accordingly"""
+    if a % 2 == 0:
+        w = None
+    else:
+        w = a * 3
+    if w is None:
+        extra = 5
+    else:
+        extra = w
+    return _opt_or(w, 7) * 10000 + opt_add(w, a) * 100 + pick_none(w, 2) + extra
+
+
+class Pt:
+    def __init__(self, u: int) -> None:
+        self.u = u
+
+
+def collect_points(n: int) -> int:
+    """two list types share the text `[]`: the annotation of the assignment picks the one that is meant"""
+    pts: list[Pt] = []
+    nums: list[int] = []
+    for i in range(n):
+        pts.append(Pt(i * i - 3))
+        nums.append(i)
+    total = 0
+    for p in pts:
+        total = total * 3 + p.u
+    return total * 100 + len(pts) * 10 + len(nums)
